@@ -30,28 +30,38 @@ func writeFileCrash(args []string) error {
 	defer os.RemoveAll(dir)
 	dest := filepath.Join(dir, "dest.txt")
 	steps := []map[string]any{}
-	for n := 1; n <= 4; n++ {
-		os.WriteFile(dest, []byte("OLD"), 0644)
-		pf := filepath.Join(dir, "points")
-		os.Remove(pf)
-		cmd := exec.Command(os.Args[0], "writefile-child", dest)
-		cmd.Env = append(os.Environ(), fmt.Sprintf("VERIF_CRASH_AT=%d", n), "VERIF_CRASH_NAME=fs.WriteFile", "VERIF_POINTS="+pf)
-		cmd.Run()
-		pb, _ := os.ReadFile(pf)
-		pts := strings.Fields(string(pb))
-		point := "none"
-		if len(pts) > 0 {
-			point = pts[len(pts)-1]
+	for _, fresh := range []bool{false, true} {
+		for n := 1; n <= 4; n++ {
+			os.Remove(dest)
+			if !fresh {
+				os.WriteFile(dest, []byte("OLD"), 0644)
+			}
+			pf := filepath.Join(dir, "points")
+			os.Remove(pf)
+			cmd := exec.Command(os.Args[0], "writefile-child", dest)
+			cmd.Env = append(os.Environ(), fmt.Sprintf("VERIF_CRASH_AT=%d", n), "VERIF_CRASH_NAME=fs.WriteFile", "VERIF_POINTS="+pf)
+			cmd.Run()
+			pb, _ := os.ReadFile(pf)
+			pts := strings.Fields(string(pb))
+			point := "none"
+			if len(pts) > 0 {
+				point = pts[len(pts)-1]
+			}
+			state := "PARTIAL"
+			info, err := os.Lstat(dest)
+			b, _ := os.ReadFile(dest)
+			switch {
+			case err != nil:
+				state = "ABSENT"
+			case string(b) == "OLD" && !fresh:
+				state = "OLD"
+			case string(b) == wfNew && info.Mode().Perm() == 0644:
+				state = "NEW-COMPLETE"
+			case string(b) == wfNew:
+				state = "NEW-WRONG-MODE"
+			}
+			steps = append(steps, map[string]any{"crashAt": n, "point": point, "dest": state, "len": len(b), "freshDestination": fresh})
 		}
-		b, _ := os.ReadFile(dest)
-		state := "PARTIAL"
-		switch string(b) {
-		case "OLD":
-			state = "OLD"
-		case wfNew:
-			state = "NEW-COMPLETE"
-		}
-		steps = append(steps, map[string]any{"crashAt": n, "point": point, "dest": state, "len": len(b)})
 	}
 	emit(map[string]any{"id": 0, "steps": steps})
 	return nil
